@@ -80,7 +80,9 @@ theorem no_panic (es : List Ev) (s : St) (h : model.run model.init es = some s) 
     (fun s e s' ms hR hs => sim_step s e s' ms hR hs) es model.init _ s rel_init h
   exact hR.nopanic t op
 
-/-- **C12 (monitor form).** Every observable trace of the model is accepted by `monC12`. -/
+/-- **C12 (monitor form).** Every observable trace of the model is accepted by `monC12`: element flow
+(nothing popped twice / out of thin air, peeked values were offered) and emptiness (`Pop`/`Peek`/
+`PeekTail` = `(_, false)` and `IsEmpty` = true only if the list can be empty during the call). -/
 theorem C12_obs_linkedlist (es : List Ev) (s : St) (h : model.run model.init es = some s) :
     monC12.accepts (es.filterMap model.obs) = true :=
   monC12_of_linearizable _ (linkedlist_linearizable es s h)
